@@ -301,6 +301,14 @@ def check_gate_forms(sys, nm, ids, want_u, want_hs, lindblad=True):
         u, gm, g, hv, hm, lm, el = gate_forms(sys, nm, ids)
     except Exception as e:
         return [("exception", "listed gate name cannot be generated: %r" % e)]
+    D = int(np.prod(SYS[sys]))
+    shapes = dict(unitary_mat=(np.shape(u), (D, D)), gate_mat=(np.shape(gm), (D * D, D * D)), gate=(np.shape(g.hs), (D * D, D * D)),
+                  hamiltonian_vec=(np.shape(hv), (D * D,)), hamiltonian_mat=(np.shape(hm), (D, D)),
+                  effective_lindbladian_mat=(np.shape(lm), (D * D, D * D)), effective_lindbladian=(np.shape(el.hs), (D * D, D * D)))
+    wrong = ["%s has shape %s, the system needs %s" % (k, a, b) for k, (a, b) in sorted(shapes.items()) if tuple(a) != b]
+    if wrong:
+        # a form of the wrong size cannot be compared entry by entry: it is the finding
+        return [("shape", "; ".join(wrong))]
     d = u.shape[0]
     if not close(u @ u.conj().T, np.eye(d)):
         out.append(("unitary", "unitary_mat is not unitary"))
